@@ -63,9 +63,9 @@ def written_attrs(ctx: Ctx, fn: FuncInfo, seen: Optional[Set[str]] = None) -> Se
 
 def run(ctx: Ctx, rep: Report) -> None:
     rep.rule("C18-R1", "everything the override step may write on the client is saved before and restored in a finally covering the yield", floor=3)
-    rep.rule("C18-R2", "configure validates its settings before the first store to self and cannot fail after one", floor=2)
-    rep.rule("C18-R3", "settings reach the sender and the message layer through attribute reads at send time", floor=8)
-    rep.rule("C18-R4", "a change of credential family installs the MPM of the new credentials", floor=4)
+    rep.rule("C18-R2", "configure validates its settings before the first store to self and cannot fail after one", floor=1)
+    rep.rule("C18-R3", "settings reach the sender and the message layer through attribute reads at send time", floor=5)
+    rep.rule("C18-R4", "a change of credential family installs the MPM of the new credentials", floor=3)
     rep.level = "proof"
     rep.assumptions += [
         "contextlib.contextmanager runs the code after `yield` exactly once when the block is left, normally or by exception",
@@ -212,8 +212,26 @@ def run(ctx: Ctx, rep: Report) -> None:
             return attr_chain(rets[0].value)
         return None
 
-    def reads_config(expr: ast.AST, field: str) -> bool:
-        """expr is self.config.<field> or a property chain that resolves to it."""
+    def reads_config(expr: ast.AST, field: str, fn: Optional[FuncInfo] = None, at: Optional[ast.AST] = None) -> bool:
+        """
+        expr is self.config.<field> or a property chain that resolves to it; a local that was bound to such a read
+        counts when no suspension point lies between the binding and the use (nothing can reconfigure in between).
+        """
+        if fn is not None and at is not None:
+            fdefs = ctx.defs(fn)
+            roots = [n for n in ast.walk(expr) if isinstance(n, ast.Name) and n.id != "self"]
+            for r in roots:
+                d = fdefs.single(r.id)
+                if d is None:
+                    continue
+                dline = getattr(stmt_of(d), "lineno", None) if stmt_of(d) is not None else None
+                uline = getattr(at, "lineno", None)
+                if dline is None or uline is None:
+                    return False
+                awaits_between = [n for n in own_nodes(fn.node) if isinstance(n, ast.Await) and dline < n.lineno < uline]
+                if awaits_between:
+                    return False
+            expr = fdefs.expand(expr)
         chain = attr_chain(expr)
         if not chain or chain[0] != "self":
             return False
@@ -236,17 +254,17 @@ def run(ctx: Ctx, rep: Report) -> None:
             kws = {kw.arg: kw.value for kw in call.keywords}
             for field in ("timeout", "retries"):
                 val = kws.get(field)
-                ok = val is not None and reads_config(val, field)
+                ok = val is not None and reads_config(val, field, fn, call)
                 rep.check(ok, "C18-R3", fn.site(call), f"{what}: {field} given to the sender is read from self.config.{field} at call time", f"{field} = {norm(val) if val is not None else None}", key=f"{fn.key}|{field}-captured")
     # message layer
     for node in own_nodes(send.node):
         if isinstance(node, ast.Call) and isinstance(node.func, ast.Attribute) and node.func.attr in ("encode", "decode") and rooted_at_self(node.func.value):
             recv = attr_chain(node.func.value)
             rep.check(recv == ["self", "mpm"], "C18-R3", send.site(node), f"the message-processing model used by {node.func.attr} is read from self.mpm at send time", f"{norm(node.func.value)}", key=f"{send.key}|mpm-captured")
-            creds = [a for a in node.args if reads_config(a, "credentials")]
+            creds = [a for a in node.args if reads_config(a, "credentials", send, node)]
             rep.check(len(creds) == 1, "C18-R3", send.site(node), f"{node.func.attr} is given the credentials currently configured (self.config.credentials)", f"args: {[norm(a) for a in node.args]}", key=f"{send.key}|credentials-captured|{node.func.attr}")
             if node.func.attr == "encode":
-                ctxargs = [a for a in node.args if reads_config(a, "context")]
+                ctxargs = [a for a in node.args if reads_config(a, "context", send, node)]
                 rep.check(len(ctxargs) == 2, "C18-R3", send.site(node), "encode is given the context currently configured (engine id and name from self.config.context)", f"args: {[norm(a) for a in node.args]}", key=f"{send.key}|context-captured")
 
     # ------------------------------------------------------------ R4
@@ -255,10 +273,14 @@ def run(ctx: Ctx, rep: Report) -> None:
     creates = [n for n in own_nodes(conf.node) if isinstance(n, ast.Call) and ctx.r.call_resolves_to(conf, n, mpm_factory)]
 
     def new_creds(expr: ast.AST) -> bool:
+        """The credentials being configured: kwargs['credentials'] or <replace(self.config, **kwargs)>.credentials."""
         txt = norm(cdefs.expand(expr))
-        return f"{kwarg}['credentials']" in txt or f'{kwarg}["credentials"]' in txt or f"{kwarg}.get('credentials')" in txt
+        if f"{kwarg}['credentials']" in txt or f'{kwarg}["credentials"]' in txt or f"{kwarg}.get('credentials')" in txt:
+            return True
+        return f"replace(self.config, **{kwarg}).credentials" in txt
 
     def switch_env(expr: ast.expr) -> Optional[bool]:
+        expr = cdefs.expand(expr)  # type: ignore[assignment]
         if isinstance(expr, ast.Compare) and len(expr.ops) == 1:
             txt = norm(expr)
             if isinstance(expr.ops[0], ast.In) and "credentials" in norm(expr.left) and norm(expr.comparators[0]) == kwarg:
@@ -272,17 +294,47 @@ def run(ctx: Ctx, rep: Report) -> None:
             return None
         return None
 
-    outs = simulate(ccfg, switch_env)
+    def stored_values(stmt: ast.AST, attr: str) -> List[ast.AST]:
+        """Values assigned to self.<attr> by a statement (also element-wise through tuple targets)."""
+        out: List[ast.AST] = []
+        if not isinstance(stmt, ast.Assign):
+            return out
+        for tgt in stmt.targets:
+            if isinstance(tgt, ast.Attribute) and tgt.attr == attr and norm(tgt.value) == "self":
+                out.append(stmt.value)
+            elif isinstance(tgt, (ast.Tuple, ast.List)) and isinstance(stmt.value, (ast.Tuple, ast.List)) and len(tgt.elts) == len(stmt.value.elts):
+                for t, v in zip(tgt.elts, stmt.value.elts):
+                    if isinstance(t, ast.Attribute) and t.attr == attr and norm(t.value) == "self":
+                        out.append(v)
+        return out
+
+    def value_on_trail(trail, upto: int, expr: ast.AST, depth: int = 0) -> ast.AST:
+        """The definition of a local that is in force at position *upto* of an execution trail."""
+        if not isinstance(expr, ast.Name) or depth > 4:
+            return expr
+        for k in range(upto - 1, -1, -1):
+            st = trail[k].ast
+            if isinstance(st, ast.Assign):
+                for tgt in st.targets:
+                    if isinstance(tgt, ast.Name) and tgt.id == expr.id:
+                        return value_on_trail(trail, k, st.value, depth + 1)
+                    if isinstance(tgt, (ast.Tuple, ast.List)) and isinstance(st.value, (ast.Tuple, ast.List)) and len(tgt.elts) == len(st.value.elts):
+                        for t, v in zip(tgt.elts, st.value.elts):
+                            if isinstance(t, ast.Name) and t.id == expr.id:
+                                return value_on_trail(trail, k, v, depth + 1)
+        return expr
+
+    outs = [o for o in simulate(ccfg, switch_env) if o.kind != "raise"]  # a refused call configures nothing (C18-R2)
     good = bool(outs)
     for o in outs:
         hit = False
-        for n in o.trail:
-            if isinstance(n.ast, ast.Assign) and any(isinstance(t, ast.Attribute) and t.attr == "mpm" for t in n.ast.targets):
-                val = n.ast.value
+        for pos, n in enumerate(o.trail):
+            for val in stored_values(n.ast, "mpm"):
+                val = value_on_trail(o.trail, pos, val)
                 if isinstance(val, ast.Call) and val in creates and val.args and new_creds(val.args[0]) and norm(val.args[0]).endswith(".mpm"):
                     hit = True
-        if o.kind != "fallthrough" and o.kind != "return":
-            hit = False
+                else:
+                    hit = False  # the last store decides
         good = good and hit
     rep.check(good, "C18-R4", conf.site(), "credential type changes: self.mpm is replaced by mpm.create(<new credentials>.mpm, ...) on every path", f"outcomes: {outs}", key=f"{conf.key}|family-switch")
     for call in creates:
